@@ -86,6 +86,9 @@ type world struct {
 	learnedStart  map[string]int // position before the first pushed update
 	learnedAt     map[string]int // trace length at the quiescent point after that push
 	chDiffLatency time.Duration
+
+	withMin    bool // containers and differences carry min entities
+	hasherDown bool // the access-hash store fails for them
 }
 
 func chSeq(id int64) string { return fmt.Sprintf("ch:%d", id) }
@@ -287,10 +290,15 @@ func (a api) UpdatesGetDifference(ctx context.Context, req *tg.UpdatesGetDiffere
 	state := tg.UpdatesState{Pts: toP, Qts: toQ, Date: w.date, Seq: w.seq}
 	w.record(event{kind: "diff", seq: "pts", from: req.Pts, value: toP, final: final, tags: tagsOf(ents, "pts")})
 	w.record(event{kind: "diff", seq: "qts", from: req.Qts, value: toQ, final: final, tags: tagsOf(ents, "qts")})
-	if final {
-		return &tg.UpdatesDifference{NewMessages: msgs, NewEncryptedMessages: enc, OtherUpdates: other, State: state}, nil
+	var chats []tg.ChatClass
+	var users []tg.UserClass
+	if w.withMin {
+		chats, users = minEntities()
 	}
-	return &tg.UpdatesDifferenceSlice{NewMessages: msgs, NewEncryptedMessages: enc, OtherUpdates: other, IntermediateState: state}, nil
+	if final {
+		return &tg.UpdatesDifference{NewMessages: msgs, NewEncryptedMessages: enc, OtherUpdates: other, State: state, Chats: chats, Users: users}, nil
+	}
+	return &tg.UpdatesDifferenceSlice{NewMessages: msgs, NewEncryptedMessages: enc, OtherUpdates: other, IntermediateState: state, Chats: chats, Users: users}, nil
 }
 
 func (a api) UpdatesGetChannelDifference(ctx context.Context, req *tg.UpdatesGetChannelDifferenceRequest) (tg.UpdatesChannelDifferenceClass, error) {
@@ -335,7 +343,12 @@ func (a api) UpdatesGetChannelDifference(ctx context.Context, req *tg.UpdatesGet
 		}
 	}
 	w.record(event{kind: "diff", seq: seq, from: req.Pts, value: to, final: final, tags: tagsOf(ents, seq)})
-	return &tg.UpdatesChannelDifference{Final: final, Pts: to, NewMessages: msgs, OtherUpdates: other}, nil
+	var chats []tg.ChatClass
+	var users []tg.UserClass
+	if w.withMin {
+		chats, users = minEntities()
+	}
+	return &tg.UpdatesChannelDifference{Final: final, Pts: to, NewMessages: msgs, OtherUpdates: other, Chats: chats, Users: users}, nil
 }
 
 // ---- storage (records every write in the world trace)
@@ -473,14 +486,45 @@ func (s *memStorage) ForEachChannels(ctx context.Context, userID int64, f func(c
 	return nil
 }
 
-type hasher struct{}
+// hasher is the access-hash store (Config.AccessHasher and UserAccessHasher).
+// With fail set, lookups of the two "min" entities that the simulation attaches
+// to containers and differences fail, as a database-backed store does during an
+// outage; lookups the client needs to talk to the server (tracked channels)
+// always succeed, so recovery itself stays possible.
+type hasher struct{ fail bool }
+
+const (
+	minChannelID = int64(9001)
+	minUserID    = int64(9002)
+)
+
+var errHasherDown = fmt.Errorf("harness: access-hash store is down")
 
 func (hasher) SetChannelAccessHash(ctx context.Context, userID, channelID, accessHash int64) error {
 	return nil
 }
 
-func (hasher) GetChannelAccessHash(ctx context.Context, userID, channelID int64) (int64, bool, error) {
+func (h hasher) GetChannelAccessHash(ctx context.Context, userID, channelID int64) (int64, bool, error) {
+	if h.fail && channelID == minChannelID {
+		return 0, false, errHasherDown
+	}
 	return channelID * 31, true, nil
+}
+
+func (hasher) SetUserAccessHash(ctx context.Context, userID, id, accessHash int64) error { return nil }
+
+func (h hasher) GetUserAccessHash(ctx context.Context, userID, id int64) (int64, bool, error) {
+	if h.fail && id == minUserID {
+		return 0, false, errHasherDown
+	}
+	return id * 37, true, nil
+}
+
+// minEntities are what a server attaches to updates from groups: a channel and a
+// user in their "min" form (the client completes them from the access-hash store).
+func minEntities() ([]tg.ChatClass, []tg.UserClass) {
+	return []tg.ChatClass{&tg.Channel{ID: minChannelID, Min: true, AccessHash: 5, Title: "min"}},
+		[]tg.UserClass{&tg.User{ID: minUserID, Min: true, AccessHash: 6}}
 }
 
 // ---- oracles over the trace
